@@ -350,6 +350,7 @@ fn e3_bodies_of(prop: &str, tier: &str) -> Vec<e3::BodySpec> {
         "C06" => props::c06::bodies(tier),
         "C10" => props::c10::bodies(tier),
         "C02" => props::c02::bodies(tier),
+        "C03" => props::c03::bodies(tier),
         "C13" => props::c13::bodies(tier),
         "C16" => props::c16::bodies(tier),
         "C01" => props::c01::bodies(tier),
